@@ -118,6 +118,9 @@ pub fn gen_program_with(t: &mut Tape, cfg: GenCfg, outer: &[(String, Ty)]) -> Pr
     if g.feature_dense_match {
         p.features.push("dense_literal_match".into());
     }
+    if ["p_box", "p_pairf", "p_keep", "p_nest"].iter().any(|n| g.poly_used.contains(n)) {
+        p.features.push("poly_closure_in_structure".into());
+    }
     p
 }
 
@@ -945,7 +948,46 @@ impl<'t, 'a> Gen<'t, 'a> {
 
     fn poly(&mut self, goal: &Ty, sc: &Scope, size: usize) -> Tm {
         let sub = size / 3;
-        match self.t.pick(6) {
+        match self.t.pick(10) {
+            // polymorphic functions whose result is a structure holding a closure over the
+            // parameter: the parameter's type variable and the closure's own must stay apart
+            6 => {
+                self.poly_used.insert("p_box");
+                let a = self.inl(goal, sc, sub);
+                let other = self.gen_ty(1, false);
+                let b = self.inl(&other, sc, sub);
+                let boxed = Tm::App(Box::new(Tm::Var("p_box".into())), vec![a]);
+                Tm::App(Box::new(Tm::Proj(Box::new(boxed), "k".into())), vec![b])
+            }
+            7 => {
+                self.poly_used.insert("p_pairf");
+                let a = self.inl(goal, sc, sub);
+                let other = self.gen_ty(1, false);
+                let b = self.inl(&other, sc, sub);
+                let boxed = Tm::App(Box::new(Tm::Var("p_pairf".into())), vec![a]);
+                Tm::App(Box::new(Tm::Proj(Box::new(boxed), "_0".into())), vec![b])
+            }
+            8 => {
+                self.poly_used.insert("p_keep");
+                let other = self.gen_ty(1, false);
+                let third = self.gen_ty(0, false);
+                let first = self.t.chance(1, 2);
+                let (ya, za) = if first { (goal.clone(), other.clone()) } else { (other.clone(), goal.clone()) };
+                let y = self.inl(&ya, sc, sub);
+                let z = self.inl(&za, sc, sub);
+                let b = self.inl(&third, sc, sub);
+                let kept = Tm::App(Box::new(Tm::Var("p_keep".into())), vec![y, z]);
+                Tm::App(Box::new(Tm::Proj(Box::new(kept), if first { "k" } else { "j" }.into())), vec![b])
+            }
+            9 => {
+                self.poly_used.insert("p_nest");
+                let a = self.inl(goal, sc, sub);
+                let other = self.gen_ty(1, false);
+                let b = self.inl(&other, sc, sub);
+                let boxed = Tm::App(Box::new(Tm::Var("p_nest".into())), vec![a]);
+                let pair = Tm::App(Box::new(Tm::Proj(Box::new(boxed), "k".into())), vec![b]);
+                Tm::Proj(Box::new(pair), "_1".into())
+            }
             0 => {
                 self.poly_used.insert("p_id");
                 let a = self.inl(goal, sc, sub);
@@ -1015,6 +1057,33 @@ impl<'t, 'a> Gen<'t, 'a> {
             ),
             ("p_const", vec!["a", "b"], Tm::Var("a".into())),
             ("p_id", vec!["x"], Tm::Var("x".into())),
+            // let p_box y = { k = \x -> y }
+            ("p_box", vec!["y"], Tm::Record(vec![("k".into(), Tm::Lam(vec!["x".into()], Box::new(Tm::Var("y".into()))))])),
+            // let p_pairf y = (\x -> y, 1)
+            ("p_pairf", vec!["y"], Tm::Tuple(vec![Tm::Lam(vec!["x".into()], Box::new(Tm::Var("y".into()))), Tm::Lit(Lit::Int(1))])),
+            // let p_keep y z = { k = \x -> y, j = \w -> z }
+            (
+                "p_keep",
+                vec!["y", "z"],
+                Tm::Record(vec![
+                    ("k".into(), Tm::Lam(vec!["x".into()], Box::new(Tm::Var("y".into())))),
+                    ("j".into(), Tm::Lam(vec!["w".into()], Box::new(Tm::Var("z".into())))),
+                ]),
+            ),
+            // let p_nest y = let g x = (x, y) in { k = g }
+            (
+                "p_nest",
+                vec!["y"],
+                Tm::Let(
+                    Box::new(FunBind {
+                        name: "g".into(),
+                        params: vec!["x".into()],
+                        ty: None,
+                        body: Tm::Tuple(vec![Tm::Var("x".into()), Tm::Var("y".into())]),
+                    }),
+                    Box::new(Tm::Record(vec![("k".into(), Tm::Var("g".into()))])),
+                ),
+            ),
         ];
         for (name, params, b) in defs {
             if self.poly_used.contains(name) {
